@@ -18,7 +18,16 @@ temporary directory (one file per wind field; see ``vf/ref/c16_wind.py``):
 * every sequence (length 3; thorough: 4) of time stamps from an alphabet spanning files with
   and without a time axis, two hours of one day, the same day-of-month in two months, asked
   of ONE Weather object, each answer compared with the reference and, bit for bit, with the
-  answer of a fresh object.
+  answer of a fresh object;
+* every repeated / interleaved query sequence on ONE Weather object over an alphabet of 12
+  queries that differ from a base query in exactly one coordinate (hour, longitude, latitude,
+  altitude, heading, airspeed, heading source, file) or lie outside the domain (horizontally,
+  vertically, above the ISA limit): a; a,b; a,b,a (incl. a,a and a,a,a); thorough: all
+  sequences of length <= 3.  A refused query must be refused every time it is asked.
+
+Every case builds its own Weather object(s), so a case is self-contained and replays in a
+fresh process; the calls of the first four families are grouped so that one case asks one
+object for the same point several times (different headings / airspeeds).
 
 Oracle clauses: vector-sum; no-wind (= airspeed); tail / head wind (adds / subtracts the full
 wind speed); joint rotation invariance; |TAS - W| <= gs <= TAS + W; refusal outside the
@@ -41,11 +50,12 @@ ID = 'C16'
 LEVEL = 'exploration'
 ENGINE = 'bex'
 RULE = (
-    'one case = one get_ground_speed call (or one 8-call joint-rotation group, or one call sequence on a '
-    'single Weather object); complete products of the declared axes per sub-lattice; non-trivial = a '
-    'returned speed was compared with the vector-sum reference under non-zero wind, or a refusal demanded '
-    'by the property was observed; distinct = distinct (field, hour, heading, heading source, airspeed, '
-    'altitude, position) / rotation group / time-stamp sequence'
+    'one case = one fresh Weather object asked a declared list of get_ground_speed calls (all headings for one '
+    '(field, airspeed, heading source); all headings for one (field, position, altitude); all 8 x 8 calls of the '
+    'joint-rotation groups of one (airspeed, wind speed, base heading); one time-stamp sequence; one repeated / '
+    'interleaved query sequence); complete products of the declared axes per sub-lattice; non-trivial = a '
+    'returned speed was compared with the vector-sum reference under non-zero wind, or a refusal demanded by the '
+    'property was observed; distinct = distinct case'
 )
 ASSUMPTIONS = [
     'weather files are written by the harness with netCDF4: float64 u, v, t on pressure_level(6) x latitude(4) x '
@@ -92,6 +102,7 @@ def _catalogue():
     add('ml1-asc', cat['ml1']['spec'], ascending=True)
     add('nodal-asc', W.nodal(1), ascending=True)
     add('nodal-t', W.nodal(2), time_axis=True)
+    add('ml-rot', W.ml_plus_rotating([5.0, 1.1, -1.7, 2.2, 0.4, -0.3, 0.6, 0.2], [-3.0, -0.9, 1.9, -1.3, 0.2, 0.5, -0.4, -0.1], 15.0, 30.0), time_axis=True)
     add('rot', W.rotating(20.0, 0.0), time_axis=True)  # 24 hourly slices, wind turning 15 deg per hour
     assert day[0] <= 28
     # same day-of-month as 'rot', one month later (September has 30 days)
@@ -169,12 +180,25 @@ def _altitudes(seed):
     ]  # fmt: skip
 
 
+# repeated / interleaved queries on one object: base query and one-coordinate variations
+# (headings 45 / 225 only: sin = cos there, so these cases stay clear of the open finding)
+REP_BASE = {'f': 'ml-rot', 'hr': 5, 'lon': -77.0, 'lat': 41.0, 'alt': 9144.0, 'h': 45.0, 'tas': 200.0, 'm': 'explicit'}
+REP_VARIATIONS = [
+    ['base', {}], ['other-hour', {'hr': 6}], ['other-longitude', {'lon': -75.0}], ['other-latitude', {'lat': 39.0}],
+    ['other-altitude', {'alt': 5000.0}], ['other-heading', {'h': 225.0}], ['other-airspeed', {'tas': 80.0}],
+    ['heading-from-point', {'m': 'point'}], ['other-file', {'f': 'ml1'}],
+    ['outside-west', {'lon': W.LON_LO - 1e-6}], ['outside-above-top-level', {'alt': W.isa_altitude_m(W.P_LO) + 0.01}],
+    ['above-isa-limit', {'alt': 25000.01}],
+]  # fmt: skip
+REP_Q = [dict(REP_BASE, name=n, **d) for n, d in REP_VARIATIONS]
+
 SEQ_STAMPS = [['E10', 0], ['E10', 12], ['rot', 0], ['rot', 5], ['rot', 23], ['rot-next-month', 5], ['N50', 5]]
 SEQ_QUERY = {'h': 45.0, 'tas': 200.0, 'alt': 9144.0, 'lon': -77.0, 'lat': 41.0}  # heading 45: sin = cos
 
 
-def _pt(f, hr, h, m, tas, alt, pos):
-    return {'k': 'pt', 'f': f, 'hr': hr, 'h': h, 'm': m, 'tas': tas, 'alt': alt, 'pos': pos}
+def _grp(f, hr, alt, pos, calls):
+    """One fresh Weather object, one (file, hour, altitude, position), calls = [[heading, source, TAS], ...]."""
+    return {'k': 'grp', 'f': f, 'hr': hr, 'alt': alt, 'pos': pos, 'calls': calls}
 
 
 def sublattices(tier, seed):
@@ -186,37 +210,41 @@ def sublattices(tier, seed):
     tas = TAS_T if thorough else TAS_Q
     heads = HEADINGS_15 + [INT_HEADING[seed % 8]]
     subs = []
-    cases = [_pt(f, 12, h, m, t, alt0, pos0) for f in uniform for h in heads for t in tas for m in MODES]
-    cases += [_pt(f, 12, h, 'explicit', t, alt0, pos0) for f in uniform for h in HEADINGS_WRAP for t in tas]
+    cases = []
+    for f in uniform:
+        for t in tas:
+            cases.append(_grp(f, 12, alt0, pos0, [[h, 'explicit', t] for h in heads + HEADINGS_WRAP]))
+            cases.append(_grp(f, 12, alt0, pos0, [[h, 'point', t] for h in heads]))
     subs.append({
-        'name': 'uniform wind x heading x airspeed x heading source',
-        'axes': {'field': uniform, 'heading': heads, 'heading_wrapped_explicit_only': HEADINGS_WRAP, 'airspeed': tas, 'heading_source': MODES},
+        'name': 'uniform wind x airspeed x heading source; calls: every heading',
+        'axes': {'field': uniform, 'airspeed': tas, 'heading_source': MODES, 'calls_heading': heads, 'calls_heading_wrapped_explicit_only': HEADINGS_WRAP},
         'cases': cases,
     })  # fmt: skip
     h0s = [0.0, 15.0, 30.0] + ([INT_HEADING[seed % 8]] if thorough else [])
     subs.append({
         'name': 'joint rotation groups (8 rotations of heading and wind by 45 degrees)',
-        'axes': {'airspeed': tas, 'wind_speed': [10, 50], 'wind_bearing_minus_heading': [45 * r for r in range(8)], 'base_heading': h0s},
-        'cases': [{'k': 'rot', 'tas': t, 'w': w, 'rel': r, 'h0': h0, 'alt': alt0, 'pos': pos0}
-                  for t in tas for w in (10, 50) for r in range(8) for h0 in h0s],
+        'axes': {'airspeed': tas, 'wind_speed': [10, 50], 'base_heading': h0s, 'calls_wind_bearing_minus_heading_plus_base': [45 * r for r in range(8)],
+                 'calls_rotation': [45 * k for k in range(8)]},
+        'cases': [{'k': 'rot', 'tas': t, 'w': w, 'h0': h0, 'alt': alt0, 'pos': pos0} for t in tas for w in (10, 50) for h0 in h0s],
     })  # fmt: skip
     fields = ['ml1', 'nodal', 'nodal-asc', 'E10'] + (['ml2', 'ml1-asc'] if thorough else [])
     hb = [0.0, 45.0, 130.0] + ([270.0, INT_HEADING[seed % 8]] if thorough else [])
     poss, alts = _positions(seed), _altitudes(seed)
     subs.append({
-        'name': 'varying field x position x altitude x heading',
-        'axes': {'field': fields, 'position': poss, 'altitude': alts, 'heading': hb, 'airspeed': [200.0]},
-        'cases': [_pt(f, 12, h, 'explicit', 200.0, a, p) for f in fields for p in poss for a in alts for h in hb],
+        'name': 'varying field x position x altitude; calls: headings',
+        'axes': {'field': fields, 'position': poss, 'altitude': alts, 'calls_heading': hb, 'airspeed': [200.0]},
+        'cases': [_grp(f, 12, a, p, [[h, 'explicit', 200.0] for h in hb]) for f in fields for p in poss for a in alts],
     })  # fmt: skip
     hc = [0.0, 45.0, 90.0, 210.0]
     hours = list(range(24))
-    cases = [_pt(f, hr, h, 'explicit', 200.0, alt0, pos0) for f in ('rot', 'rot-next-month') for hr in hours for h in hc]
+    cases = [_grp(f, hr, alt0, pos0, [[h, 'explicit', 200.0] for h in hc]) for f in ('rot', 'rot-next-month') for hr in hours]
     tpos = [poss[0], poss[2], poss[3], poss[11]]
-    cases += [_pt('nodal-t', hr, h, 'explicit', 200.0, a, p) for hr in (0, 7, 23) for h in (0.0, 45.0) for a in (alts[0], alts[5], alts[9]) for p in tpos]
-    cases += [_pt(f, hr, 45.0, 'point', 200.0, alt0, pos0) for f in ('E10', 'nodal') for hr in (0, 23)]
+    cases += [_grp(f, hr, a, p, [[h, 'explicit', 200.0] for h in (0.0, 45.0)])
+              for f in ('nodal-t', 'ml-rot') for hr in (0, 7, 23) for a in (alts[0], alts[5], alts[9]) for p in tpos]  # fmt: skip
+    cases += [_grp(f, hr, alt0, pos0, [[45.0, 'point', 200.0]]) for f in ('E10', 'nodal') for hr in (0, 23)]
     subs.append({
-        'name': 'files with a 24-hour time axis x hour x heading',
-        'axes': {'field': ['rot', 'rot-next-month', 'nodal-t'], 'hour': hours, 'heading': hc},
+        'name': 'files with a 24-hour time axis x hour; calls: headings',
+        'axes': {'field': ['rot', 'rot-next-month', 'nodal-t', 'ml-rot'], 'hour': hours, 'calls_heading': hc},
         'cases': cases,
     })  # fmt: skip
     n = 4 if thorough else 3
@@ -225,6 +253,18 @@ def sublattices(tier, seed):
         'name': f'time-stamp sequences of length <= {n} on one Weather object',
         'axes': {'stamp': SEQ_STAMPS, 'length': list(range(1, n + 1)), 'query': [SEQ_QUERY]},
         'cases': [{'k': 'seq', 's': s} for s in seqs],
+    })  # fmt: skip
+    nq = range(len(REP_Q))
+    if thorough:
+        reps = [list(s) for k in (1, 2, 3) for s in itertools.product(nq, repeat=k)]
+        shape = 'all sequences of length <= 3'
+    else:
+        reps = [[a] for a in nq] + [[a, b] for a in nq for b in nq] + [[a, b, a] for a in nq for b in nq]
+        shape = 'a; a,b; a,b,a (b = a included: the same query two and three times)'
+    subs.append({
+        'name': 'repeated / interleaved queries on one Weather object',
+        'axes': {'query': [q['name'] for q in REP_Q], 'base_query': [REP_BASE], 'sequence_shape': shape},
+        'cases': [{'k': 'rep', 's': s} for s in reps],
     })  # fmt: skip
     return subs
 
@@ -244,20 +284,15 @@ def worker_init(tier, seed):
     from AEIC.types import Location
     from AEIC.weather import Weather
 
-    _STATE.update(Weather=Weather, Point=GroundTrack.Point, Location=Location, pd=pd, dir=_data_dir(), wx={}, fresh={})
+    _STATE.update(Weather=Weather, Point=GroundTrack.Point, Location=Location, pd=pd, dir=_data_dir(), fresh={}, rep_fresh={})
 
 
 def _stamp(fid, hour):
     return _STATE['pd'].Timestamp(DAY0 + 86400 * CATALOGUE[fid]['offset'] + 3600 * hour, unit='s', tz='UTC')
 
 
-def _weather(fid, hour):
-    """One long-lived Weather object per (file, hour): it only ever sees one time stamp, so the
-    single-call cases are independent of the traversal order (sequences are separate cases)."""
-    key = (fid, hour)
-    if key not in _STATE['wx']:
-        _STATE['wx'][key] = _STATE['Weather'](data_dir=_STATE['dir'])
-    return _STATE['wx'][key]
+def _new_weather():
+    return _STATE['Weather'](data_dir=_STATE['dir'])
 
 
 def _call(wx, fid, hour, lon, lat, alt, tas, heading, mode):
@@ -325,57 +360,75 @@ def _value_clauses(g, tas, h, u, v, what, out):
     if not ok:
         out.append(V('vector-sum', f'{what}: returned {g!r}; |(TAS sin h + u, TAS cos h + v)| = {exp!r} with wind ({u!r}, {v!r}); '
                      f'|(TAS cos h + u, TAS sin h + v)| = {swp!r}', finding=finding))  # fmt: skip
-        return 'gs:mismatch-components-exchanged' if finding else 'gs:mismatch'
+        return 'mismatch-components-exchanged' if finding else 'mismatch'
     if wind == 0.0:
-        return 'gs:no-wind'
-    return f'gs:{rel}' if rel else 'gs:oblique-wind'
+        return 'no-wind'
+    return rel if rel else 'oblique-wind'
 
 
-def _run_pt(case):
-    out = []
-    fid, hour, h, tas = case['f'], case['hr'], case['h'], case['tas']
-    (aname, alt), (pname, lon, lat) = case['alt'], case['pos']
-    what = (f'get_ground_speed(field {fid}, hour {hour}, ({lon}, {lat}) [{pname}], altitude {alt!r} m [{aname}], '
-            f'TAS {tas}, heading {h} [{case["m"]}])')  # fmt: skip
-    exp = _expect(fid, hour, lon, lat, alt)
-    r = _call(_weather(fid, hour), fid, hour, lon, lat, alt, tas, h, case['m'])
-    fp = fingerprint(['pt', fid, hour, h, case['m'], tas, repr(alt), lon, lat])
+def _check_call(r, exp, tas, h, what, out):
+    """Clauses on one observed call result r against the expectation exp. Returns a class."""
     if r[0] == 'error':
-        return {'outcome': 'error', 'nontrivial': True, 'fp': fp, 'violations': [V('internal-error', f'{what}: {r[1]}')]}
+        out.append(V('internal-error', f'{what}: {r[1]}'))
+        return 'error'
     if exp[0] == 'outside':
         if r[0] != 'refused':
             out.append(V('outside-not-refused', f'{what}: returned {r[1]!r} although {exp[1]}'))
-            return {'outcome': 'outside:returned', 'nontrivial': True, 'fp': fp, 'violations': out}
-        return {'outcome': 'outside:refused:' + r[1].split(':')[0], 'nontrivial': True, 'fp': fp, 'violations': out}
+            return 'outside-returned'
+        return 'refused:' + r[1].split(':')[0]
     _, u, v, p = exp
     if r[0] == 'refused':
         out.append(V('refused-inside', f'{what}: refused ({r[1]}) although the point is inside the data domain (pressure {p!r} hPa)'))
-        return {'outcome': 'inside:refused', 'nontrivial': True, 'fp': fp, 'violations': out}
-    oc = _value_clauses(r[1], tas, h, u, v, what, out)
-    return {'outcome': oc, 'nontrivial': math.hypot(u, v) > 0.0, 'fp': fp, 'violations': out}
+        return 'inside-refused'
+    return _value_clauses(r[1], tas, h, u, v, what, out)
+
+
+def _outcome(prefix, classes):
+    return prefix + ':' + '+'.join(sorted(set(classes)))
+
+
+def _run_grp(case):
+    out, classes = [], []
+    fid, hour = case['f'], case['hr']
+    (aname, alt), (pname, lon, lat) = case['alt'], case['pos']
+    exp = _expect(fid, hour, lon, lat, alt)
+    wx = _new_weather()
+    for n, (h, mode, tas) in enumerate(case['calls']):
+        what = (f'call {n + 1} on one Weather object: get_ground_speed(field {fid}, hour {hour}, ({lon}, {lat}) [{pname}], '
+                f'altitude {alt!r} m [{aname}], TAS {tas}, heading {h} [{mode}])')  # fmt: skip
+        r = _call(wx, fid, hour, lon, lat, alt, tas, h, mode)
+        classes.append(_check_call(r, exp, tas, h, what, out))
+    windy = exp[0] == 'inside' and math.hypot(exp[1], exp[2]) > 0.0
+    return {'outcome': _outcome('grp', classes), 'nontrivial': windy or exp[0] == 'outside', 'violations': out}
 
 
 def _run_rot(case):
     out = []
-    tas, w, rel, h0 = case['tas'], case['w'], case['rel'], case['h0']
+    tas, w, h0 = case['tas'], case['w'], case['h0']
     (_, alt), (_, lon, lat) = case['alt'], case['pos']
-    got, swapped = [], []
-    for k in range(8):
-        h = h0 + 45.0 * k
-        fid = f'{W.COMPASS[(rel + k) % 8]}{w}'
-        r = _call(_weather(fid, 12), fid, 12, lon, lat, alt, tas, h, 'explicit')
-        if r[0] != 'gs':
-            return {'outcome': 'rot:' + r[0], 'nontrivial': True,
-                    'violations': [V('refused-inside' if r[0] == 'refused' else 'internal-error', f'rotation {k} of {case}: {r[1]}')]}  # fmt: skip
+    got = {rel: [None] * 8 for rel in range(8)}  # rel -> value per rotation k
+    swapped = {rel: [False] * 8 for rel in range(8)}
+    wx = _new_weather()
+    for j, c in enumerate(W.COMPASS):  # one file after the other on one object
+        fid = f'{c}{w}'
         u, v = W.wind_at(CATALOGUE[fid]['spec'], 0, 0.0, lat, lon)
-        got.append(r[1])
-        swapped.append(_close(r[1], W.ground_speed_components_exchanged(tas, h, u, v)))
-    ref = got[0]
-    if not all(_close(g, ref) for g in got):
-        out.append(V('rotation-invariance', f'TAS {tas}, wind {w} m/s blowing towards heading + {45 * rel} deg: rotating heading (from {h0}) and wind '
-                     f'together by 0, 45, ..., 315 deg gave {got}', finding=FINDING_SWAP if all(swapped) else None))  # fmt: skip
-        return {'outcome': 'rot:varies', 'nontrivial': True, 'violations': out}
-    return {'outcome': 'rot:invariant', 'nontrivial': True, 'violations': out}
+        for rel in range(8):
+            k = (j - rel) % 8  # wind COMPASS[(rel + k) % 8] belongs to rotation k of group rel
+            h = h0 + 45.0 * k
+            r = _call(wx, fid, 12, lon, lat, alt, tas, h, 'explicit')
+            if r[0] != 'gs':
+                return {'outcome': 'rot:' + r[0], 'nontrivial': True,
+                        'violations': [V('refused-inside' if r[0] == 'refused' else 'internal-error', f'rotation {k} of group {rel} of {case}: {r[1]}')]}  # fmt: skip
+            got[rel][k] = r[1]
+            swapped[rel][k] = _close(r[1], W.ground_speed_components_exchanged(tas, h, u, v))
+    varies = 0
+    for rel in range(8):
+        g = got[rel]
+        if not all(_close(x, g[0]) for x in g):
+            varies += 1
+            out.append(V('rotation-invariance', f'TAS {tas}, wind {w} m/s blowing towards (heading - {h0}) + {45 * rel} deg: rotating heading (from {h0}) '
+                         f'and wind together by 0, 45, ..., 315 deg gave {g}', finding=FINDING_SWAP if all(swapped[rel]) else None))  # fmt: skip
+    return {'outcome': 'rot:invariant' if not varies else 'rot:varies', 'nontrivial': True, 'violations': out}
 
 
 def _seq_expected(i):
@@ -392,15 +445,14 @@ def _seq_fresh(i):
     if i not in _STATE['fresh']:
         fid, hour = SEQ_STAMPS[i]
         q = SEQ_QUERY
-        wx = _STATE['Weather'](data_dir=_STATE['dir'])
-        _STATE['fresh'][i] = _call(wx, fid, hour, q['lon'], q['lat'], q['alt'], q['tas'], q['h'], 'explicit')
+        _STATE['fresh'][i] = _call(_new_weather(), fid, hour, q['lon'], q['lat'], q['alt'], q['tas'], q['h'], 'explicit')
     return _STATE['fresh'][i]
 
 
 def _run_seq(case):
     out = []
     q = SEQ_QUERY
-    wx = _STATE['Weather'](data_dir=_STATE['dir'])
+    wx = _new_weather()
     names = [f'{SEQ_STAMPS[i][0]}@{SEQ_STAMPS[i][1]:02d}h' for i in case['s']]
     for n, i in enumerate(case['s']):
         fid, hour = SEQ_STAMPS[i]
@@ -420,7 +472,44 @@ def _run_seq(case):
     return {'outcome': 'seq:consistent' if not out else 'seq:inconsistent', 'nontrivial': len(set(case['s'])) > 1, 'violations': out}
 
 
-_RUN = {'pt': _run_pt, 'rot': _run_rot, 'seq': _run_seq}
+def _rep_ask(wx, q):
+    return _call(wx, q['f'], q['hr'], q['lon'], q['lat'], q['alt'], q['tas'], q['h'], q['m'])
+
+
+def _rep_fresh(i):
+    if i not in _STATE['rep_fresh']:
+        _STATE['rep_fresh'][i] = _rep_ask(_new_weather(), REP_Q[i])
+    return _STATE['rep_fresh'][i]
+
+
+def _same_answer(a, b):
+    if a[0] != b[0]:
+        return False
+    if a[0] == 'gs':
+        return repr(a[1]) == repr(b[1])
+    return a[1].split(':')[0] == b[1].split(':')[0]  # same exception class
+
+
+def _run_rep(case):
+    out, classes = [], []
+    wx = _new_weather()
+    names = [REP_Q[i]['name'] for i in case['s']]
+    for n, i in enumerate(case['s']):
+        q = REP_Q[i]
+        what = f'call {n + 1} of {names} on one Weather object ({ {k: q[k] for k in ("f", "hr", "lon", "lat", "alt", "h", "tas", "m")} })'
+        r = _rep_ask(wx, q)
+        before = len(out)
+        classes.append(_check_call(r, _expect(q['f'], q['hr'], q['lon'], q['lat'], q['alt']), q['tas'], q['h'], what, out))
+        if len(out) == before:
+            f = _rep_fresh(i)
+            if not _same_answer(f, r):
+                out.append(V('history-dependence', f'{what}: answered {r}, a fresh object answers {f}'))
+        if len(out) > before:
+            break
+    return {'outcome': _outcome('rep', classes), 'nontrivial': True, 'violations': out}
+
+
+_RUN = {'grp': _run_grp, 'rot': _run_rot, 'seq': _run_seq, 'rep': _run_rep}
 
 
 def run_case(case):
